@@ -33,7 +33,7 @@ def partitions(items):
 
 
 def build(tier, seed):
-    L = 3 if tier == 'quick' else 4
+    L = 4 if tier == 'quick' else 5
     cases = []
     for w in words((-1, 0, 1), 2, L, nonzero=True):
         cases.append({'kind': 'record', 'a': list(w), 'L': L})
